@@ -39,7 +39,7 @@ func c08(r *core.Run) {
 	}
 	ownerRow := func(h *core.Handler) func(*ssa.Function) core.GuardMatch {
 		return func(*ssa.Function) core.GuardMatch {
-			return eqGuard(p, onlyStoreField(rnsNames, ".Value"), signerOf(p, h), true)
+			return eqGuard(p, onlyStoreFieldH(p, h, rnsNames, ".Value"), signerOf(p, h), true)
 		}
 	}
 	type row struct {
@@ -50,7 +50,7 @@ func c08(r *core.Run) {
 	}
 	listingOwner := func(h *core.Handler) func(*ssa.Function) core.GuardMatch {
 		return func(*ssa.Function) core.GuardMatch {
-			return eqGuard(p, onlyStoreField(rnsForsale, ".Owner"), onlyStoreField(rnsNames, ".Value"), true)
+			return eqGuard(p, onlyStoreFieldH(p, h, rnsForsale, ".Owner"), onlyStoreFieldH(p, h, rnsNames, ".Value"), true)
 		}
 	}
 	rows := map[string][]row{
@@ -64,7 +64,7 @@ func c08(r *core.Run) {
 		"rns.MsgDelist": {
 			{"listing-owner-is-signer", func(h *core.Handler) func(*ssa.Function) core.GuardMatch {
 				return func(*ssa.Function) core.GuardMatch {
-					return eqGuard(p, onlyStoreField(rnsForsale, ".Owner"), signerOf(p, h), true)
+					return eqGuard(p, onlyStoreFieldH(p, h, rnsForsale, ".Owner"), signerOf(p, h), true)
 				}
 			}, "Eq(Forsale.Owner, signer)=true", nil},
 			{"listing-by-current-owner", listingOwner, "Eq(Names.Value, Forsale.Owner)=true", nil},
@@ -74,7 +74,7 @@ func c08(r *core.Run) {
 		return func(*ssa.Function) core.GuardMatch {
 			return anyOf(
 				foundGuard(p, rnsNames, false),
-				eqGuard(p, onlyStoreField(rnsNames, ".Value"), signerOf(p, h), true),
+				eqGuard(p, onlyStoreFieldH(p, h, rnsNames, ".Value"), signerOf(p, h), true),
 				expiredEdge(p),
 			)
 		}
